@@ -142,6 +142,13 @@ def pyInteger? (s : Str) : Option Nat := if integer.accepts s then some (integer
 def isExpMark (c : Char) : Bool := c == 'e' || c == 'E'
 def countDigits (s : Str) : Nat := (s.filter isDigitC).length
 
+/-- the written exponent: optional sign, then digits -/
+def expValue (x : Str) : Int :=
+  match x with
+  | '-' :: d => - (digitsValue 10 d : Int)
+  | '+' :: d => (digitsValue 10 d : Int)
+  | d => (digitsValue 10 d : Int)
+
 /-- the decimal a `floatnumber` spelling denotes, as `(mantissa, exponent)` meaning `mantissa * 10 ^ exponent`:
     the digits before the exponent mark with the point removed, and the written exponent lowered by the number
     of digits after the point -/
@@ -150,11 +157,7 @@ def floatDecimal (s : Str) : Nat × Int :=
   let x := (s.dropWhile (fun c => !isExpMark c)).drop 1
   let ip := m.takeWhile (· != '.')
   let fp := (m.dropWhile (· != '.')).drop 1
-  let xv : Int := match x with
-    | '-' :: d => - (digitsValue 10 d : Int)
-    | '+' :: d => (digitsValue 10 d : Int)
-    | d => (digitsValue 10 d : Int)
-  (digitsValue 10 (ip ++ fp), xv - (countDigits fp : Int))
+  (digitsValue 10 (ip ++ fp), expValue x - (countDigits fp : Int))
 
 def pyFloat? (s : Str) : Option (Nat × Int) := if floatnumber.accepts s then some (floatDecimal s) else none
 
